@@ -6,7 +6,7 @@ from .world import World
 
 LABELS = "abcdefgh"
 IDS = ["#x0", "#x1", "#x2", "#x3", 9001, 9002, 0, ""]
-KINDS = ["k0", "k1", "k2"]
+KINDS = ["k0", "k1", "k2", ""]  # the empty string is a legal kind
 
 
 # ------------------------------------------------------------------------------
@@ -68,7 +68,7 @@ def draw_cfg(rng, prop: str, tier: str, overrides=None) -> dict:
     cfg["flavours"] = flav
     cfg["ids"] = rng.sample(IDS, rng.choice([0, 2, 3, 4]))
     cfg["p_explicit_id"] = rng.choice([0.0, 0.1, 0.3]) if cfg["ids"] else 0.0
-    cfg["kinds"] = KINDS[: rng.choice([1, 2, 3])]
+    cfg["kinds"] = rng.sample(KINDS, rng.choice([1, 2, 3]))
     cfg["p_reuse"] = rng.choice([0.1, 0.3, 0.5])
     hi = 40 if tier == "quick" else rng.choice([40, 80, 200])
     cfg["length"] = rng.randint(5, hi)
@@ -105,7 +105,7 @@ def _keys_of_flavour(f, cfg):
     if f == "s":
         return ["s:" + c for c in cfg["labels"]]
     if f == "i":
-        return ["i:1", "i:2", "i:3"]
+        return ["i:1", "i:2", "i:3", "i:0"]  # 0: a falsy but perfectly valid data object
     if f == "t":
         return ["t:1#0", "t:1#1", "t:2#0"]
     if f == "d":
